@@ -368,8 +368,15 @@ def env_sanity(run):
 
 def refine_run(spec):
     """returns (run, lines, expect, kinds)"""
-    run = R.Run(spec).execute()
+    run = R.Run(spec)
+    run.record_engines = True
+    run.execute()
     lines, expect, kinds = emit(run)
+    # every generation the DE / SHADE / SEA-family demes of this run made is also a case for the engine model
+    for line, exp, _extra in run.engine_cases:
+        lines.append(line)
+        expect.append(exp)
+        kinds.append("engine")
     return run, lines, expect, kinds
 
 
@@ -406,9 +413,9 @@ ERROR_CATS = [
 
 # which kinds of disagreement bear on which property
 RELEVANT = {
-    "C01": {"box"},
-    "C02": {"chain", "hist", "seed"},
-    "C03": {"count", "budget", "evals", "counter", "invocations", "seed"},
+    "C01": {"box", "engine"},
+    "C02": {"chain", "hist", "seed", "engine"},
+    "C03": {"count", "budget", "evals", "counter", "invocations", "seed", "engine"},
     "C04": {"best", "observed"},
     "C05": {"control", "metaepoch"},
     "C06": {"schedule", "active", "me", "gens", "control", "hist"},
@@ -416,8 +423,8 @@ RELEVANT = {
     "C08": {"stage:LevelLimit", "active"},
     "C09": {"stage:FarEnough", "stage:NBC_FarEnough"},
     "C10": {"stage:FarEnough", "stage:NBC_FarEnough", "stage:DemeLimit", "stage:LevelLimit", "stage:SkipSameSprout", "stage:BestPerDeme", "stage:NBC_Generator", "stage:NBCGeneratorWithLocalMethod", "stage:MahalanobisFarEnough", "sprout"},
-    "C11": {"chain", "hist"},
-    "C12": {"elitism", "size"},
+    "C11": {"chain", "hist", "engine"},
+    "C12": {"elitism", "size", "engine"},
     "C15": {"stage:NBC_Generator", "stage:NBCGeneratorWithLocalMethod"},
     "C18": {"hib", "schedule", "sprout"},
     "C20": {"best", "evals", "counter", "report:metaepoch", "report:evals", "report:demes", "report:levels", "report:cls", "report:line-evals", "report:marker", "report:displayed"},
@@ -481,6 +488,11 @@ def compare(lines, expect, kinds, got, stage_classes=None):
             out.append({"cat": cat, "at": j, "kind": k, "model": g[:500], "op": l[:200], "terminal": True})
             break
         if e is None:
+            continue
+        if k == "engine":
+            g3 = " | ".join(g.split(" | ")[:3]) if l.startswith("shadegen") else g
+            if g3 != e:
+                out.append({"cat": "engine", "at": j, "kind": k, "model": g3[:600], "impl": e[:600], "op": l[:300]})
             continue
         if k == "stages":
             cls = stage_classes[ns] if stage_classes and ns < len(stage_classes) else []
@@ -577,6 +589,7 @@ def refine_batch(ctx, n, salt=31, force=None, name="trace-refinement", pid=None)
         sl.count("sprout:" + d["sprout"])
         sl.count("events", ln)
         sl.count("rounds", r["nrounds"])
+        sl.count("engine-generations-replayed", sum(1 for k in r["kinds"] if k == "engine"))
         sl.count("demes", len(r["demes"]))
         if len(r["demes"]) >= 2 and r["steps"] >= 2:
             sl.nontrivial.add(R.spec_id(spec))
